@@ -3,7 +3,7 @@
 //! exit 0  property held on everything explored (open known findings are printed as
 //!         `KNOWN-FINDING: property=<id> <what>` and do not fail the run)
 //! exit 1  at least one violation whose key is not an *open* entry of
-//!         /verif/known_findings.jsonl; one line `VIOLATION property=<id> replay=<path>` each
+//!         /verif/known_findings.txt (`known:` lines); one line `VIOLATION property=<id> replay=<path>` each
 //! exit 2  machinery failure (never prints VIOLATION)
 
 use crate::util::json::{self, J};
@@ -118,21 +118,27 @@ impl Report {
   pub fn finish(mut self) -> i32 {
     let root = verif_root();
     let wall = self.t0.elapsed().as_millis() as f64 / 1000.0;
-    // known findings
+    // known findings: lines `known: property=<id> key=<key> :: <what fails>` of known_findings.txt
     let mut open: Vec<(String, String)> = Vec::new();
-    if let Ok(text) = std::fs::read_to_string(format!("{}/known_findings.jsonl", root)) {
+    if let Ok(text) = std::fs::read_to_string(format!("{}/known_findings.txt", root)) {
       for line in text.lines() {
         let line = line.trim();
-        if line.is_empty() || line.starts_with('#') {
+        if !line.starts_with("known:") {
+          continue; // comments, blank lines and `fixed:` records suppress nothing
+        }
+        let rest = line["known:".len()..].trim();
+        let prop_ok = rest.starts_with(&format!("property={} ", self.id));
+        let any_prop = rest.starts_with("property=");
+        if !any_prop {
+          self.machinery.push(format!("known_findings.txt: malformed line {:?}", line));
           continue;
         }
-        match json::parse(line) {
-          Ok(j) => {
-            if j.str_of("property") == self.id && j.str_of("status") == "open" {
-              open.push((j.str_of("key"), j.str_of("what")));
-            }
-          },
-          Err(e) => self.machinery.push(format!("known_findings.jsonl: {}", e)),
+        if !prop_ok {
+          continue;
+        }
+        match (rest.find("key="), rest.find(" :: ")) {
+          (Some(k), Some(e)) if k < e => open.push((rest[k + 4..e].trim().to_string(), rest[e + 4..].trim().to_string())),
+          _ => self.machinery.push(format!("known_findings.txt: malformed line {:?}", line)),
         }
       }
     }
